@@ -789,6 +789,15 @@ class TermAnalysis(Analysis):
             return ("global", f"{r[1].name}.{r[2]}")
         return ("global", name)
 
+    def _gated_len(self, v, depth=0):
+        """n when v is a tuple / list literal of n elements or an ite-tree of such with one common n"""
+        if v[0] == "ite" and depth < 12:
+            a_, b_ = self._gated_len(v[2], depth + 1), self._gated_len(v[3], depth + 1)
+            return a_ if a_ is not None and a_ == b_ else None
+        if v[0] in ("tuple", "list") and not any(x[0] == "starred" for x in v[1]):
+            return len(v[1])
+        return None
+
     def _tuple_leaves(self, v, n, depth=0) -> bool:
         if v[0] == "ite" and depth < 12:
             return self._tuple_leaves(v[2], n, depth + 1) and self._tuple_leaves(v[3], n, depth + 1)
@@ -796,6 +805,17 @@ class TermAnalysis(Analysis):
 
     def _record(self, t: Term):
         """{field: term} when `t` constructs a record class (NamedTuple / plain dataclass) from known arguments"""
+        if isinstance(t, tuple) and t and t[0] == "call" and t[1][0] == "meth" and t[1][2] == "_make" and t[1][1][0] == "global" and t[1][1][1] in self.prog.classes \
+                and len(t[2]) == 1 and not t[3] and self.prog.is_namedtuple(self.prog.classes[t[1][1][1]]):
+            # Record._make(values): the record of the positions of `values`
+            c = self.prog.classes[t[1][1][1]]
+            fields = self.prog.record_fields(c) or []
+            src = t[2][0]
+            vals = list(src[1]) if src[0] in ("tuple", "list") and len(src[1]) == len(fields) else [field_read(src, i) or ("item", src, i) for i in range(len(fields))]
+            out = {f: v for (f, _d), v in zip(fields, vals)}
+            out["__order__"] = [f for f, _d in fields]
+            out["__tuple__"] = True
+            return out if fields else None
         if not (isinstance(t, tuple) and t and t[0] == "call" and t[1][0] == "func" and t[1][1] in self.prog.classes):
             return None
         c = self.prog.classes[t[1][1]]
@@ -831,9 +851,20 @@ class TermAnalysis(Analysis):
                 pass
         if is_const(base) and isinstance(base[1], slice) and name in ("start", "stop", "step"):
             return const(getattr(base[1], name))
+        if base[0] == "enum" and name in ("value", "name"):
+            return const(base[3] if name == "value" else base[2])          # Member.value / Member.name
         rec = self._record(base)
         if rec is not None and name in rec:
             return rec[name]
+        if rec is not None and self.inline_depth < 4:
+            # a property of a record class: its getter applied to the record
+            cq = base[1][1] if base[1][0] == "func" else base[1][1][1]
+            pm = self.prog.lookup_method(self.prog.classes[cq], name) if cq in self.prog.classes else None
+            if pm is not None and pm.kind == "property" and pm.params:
+                try:
+                    return summarize(self.prog, pm, {pm.params[0]: base}, depth=self.inline_depth + 1).return_term()
+                except (AnalysisError, RecursionError):
+                    pass
         # class / module attribute constants fold
         if base[0] == "global":
             q = base[1]
@@ -1162,6 +1193,13 @@ class TermAnalysis(Analysis):
         return ks[0], ks[-1], d[1][0][1][1] - d[1][0][0][1]
 
     def _call_norm(self, t: Term, e: ast.Call, st: State) -> Term:
+        if t[0] == "call" and t[1][0] == "meth" and t[1][2] == "join" and is_const(t[1][1]) and t[1][1][1] in (b"", "") and len(t[2]) == 1 and not t[3] \
+                and t[2][0][0] in ("tuple", "list") and t[2][0][1] and not any(x[0] in ("starred", "when") for x in t[2][0][1]):
+            # b"".join((a, b, c)) is a + b + c
+            out = t[2][0][1][0]
+            for x in t[2][0][1][1:]:
+                out = ("bin", "+", out, x)
+            return out
         if t[0] == "call" and t[1] == ("ext", "isinstance") and len(t[2]) == 2 and not t[3] and t[2][1][0] == "bin" and t[2][1][1] == "|":
             # isinstance(x, A | B) is isinstance(x, (A, B))
             def union(u):
@@ -1469,6 +1507,11 @@ class TermAnalysis(Analysis):
             v = self.ev(a, st)
             if v[0] == "starred" and v[1][0] in ("tuple", "list") and not any(x[0] == "starred" for x in v[1][1]):
                 args += list(v[1][1])          # f(*(a, b)) is f(a, b)
+            elif v[0] == "starred" and v[1][0] == "ite" and self._gated_len(v[1]) is not None:
+                # f(*pair) with pair = (a, b) if c else (x, y): f(a if c else x, b if c else y)
+                def pick(t_, i):
+                    return ("ite", t_[1], pick(t_[2], i), pick(t_[3], i)) if t_[0] == "ite" else t_[1][i]
+                args += [pick(v[1], i) for i in range(self._gated_len(v[1]))]
             else:
                 args.append(v)
         args = tuple(args)
